@@ -3,6 +3,7 @@
 package app
 
 import (
+	"github.com/f1bonacc1/process-compose/src/health"
 	"sync"
 
 	"github.com/f1bonacc1/process-compose/src/types"
@@ -223,5 +224,44 @@ func VerifC09_Project() {
 			verifAssert("restarts.equal.relaunches", st.Restarts == rl)
 		}
 	}
+	verifReach("end")
+}
+
+// C09 (a process stopped by its readiness probe and relaunched by its policy): every status
+// write is a legal transition (Running -> Terminating -> Restarting -> Running), while the
+// process waits out its back-off - no command alive, nothing being terminated - it is reported
+// Restarting and not running, and after the relaunch Running.
+func VerifC09_ProbeRestart() {
+	w := vInit()
+	vBindHealth()
+	vNewMonitor("p")
+	policy := []string{types.RestartPolicyOnFailure, types.RestartPolicyAlways}[verifChooseK("policy", 2)]
+	conf := vConf("p", nil)
+	conf.RestartPolicy = types.RestartPolicyConfig{Restart: policy, MaxRestarts: 1, BackoffSeconds: 5}
+	conf.ReadinessProbe = &health.Probe{Exec: &health.ExecProbe{Command: "check"}, FailureThreshold: 2}
+	w.behav["p"] = &vBehav{untilStop: []bool{true}}
+	proc := vMkProc(&conf)
+	done := make(chan int, 1)
+	go func() { done <- proc.run() }()
+	<-w.started
+	verifQuiesce()
+	verifAssert("running.before", proc.getStatusName() == types.ProcessStateRunning)
+	_ = vProbeCheck("p_ready_probe", false)
+	verifSettle()
+	_ = vProbeCheck("p_ready_probe", false) // the failure_threshold-th consecutive failure: internal stop
+	verifSettle()                           // the command is gone, the back-off has not elapsed
+	if vGet(w.alive, "p") == 0 && vGet(w.starts, "p") == 1 {
+		verifReach("in.back-off")
+		st := proc.getState()
+		verifShape("back-off:" + st.Status)
+		verifAssert("reported.restarting.during.the.back-off", st.Status == types.ProcessStateRestarting)
+		verifAssert("not.reported.running.during.the.back-off", !st.IsRunning)
+	}
+	verifQuiesce() // back-off over: relaunched
+	verifAssert("relaunched", vGet(w.starts, "p") == 2 && vGet(w.alive, "p") == 1)
+	verifAssert("running.after.relaunch", proc.getStatusName() == types.ProcessStateRunning)
+	_ = proc.shutDownNoRestart()
+	<-done
+	verifQuiesce()
 	verifReach("end")
 }
